@@ -197,6 +197,11 @@ pub fn park(want: Option<(Res, bool)>, yielded: bool, label: &str) {
     let Some((s, me)) = current() else { return };
     let mut st = s.m.lock().unwrap();
     if st.abandoned {
+        drop(st);
+        if yielded {
+            // the execution was given up (deadlock / livelock verdict): break out of the spin loop
+            panic!("abandoned execution: leaving the spin loop");
+        }
         return;
     }
     st.threads[me].status = Status::Parked;
@@ -215,6 +220,9 @@ pub fn park(want: Option<(Res, bool)>, yielded: bool, label: &str) {
         if let Some((r, ex)) = want {
             st.locks.grant(me, r, ex);
         }
+    } else if yielded {
+        drop(st);
+        panic!("abandoned execution: leaving the spin loop");
     }
 }
 
